@@ -505,6 +505,49 @@ pub fn run(cx: &mut Ctx) {
             }
         }
     }
+    // every name of the system tree through *one* handle of each whole-database loader, in a seeded order: a lookup
+    // must not depend on which names were looked up before (names that are prefixes of other names, neighbours in the
+    // sorted cache ...). Judged on the canonical name and on the offsets at three instants of the zone's own file.
+    {
+        let mut order: Vec<usize> = (0..sys_all.len()).collect();
+        r.shuffle(&mut order);
+        let probes = [Timestamp::UNIX_EPOCH, Timestamp::new(1_720_000_000, 0).unwrap(), Timestamp::new(-1_500_000_000, 0).unwrap()];
+        for (label, db) in &full_dbs {
+            if *label == "tz::db()" {
+                continue; // shared with everything else in this process; the fresh handles below are the clean experiment
+            }
+            let fresh = match *label {
+                "from_dir(system)" => TimeZoneDatabase::from_dir("/usr/share/zoneinfo").ok(),
+                _ => Some(db.clone()),
+            };
+            let Some(db) = fresh else { continue };
+            db.reset();
+            let mut wrong = 0;
+            for &i in &order {
+                let (name, path) = &sys_all[i];
+                if name == "UTC" || (label.starts_with("from_concatenated") && name.len() > 40) {
+                    continue;
+                }
+                let Ok(bytes) = std::fs::read(path) else { continue };
+                let Ok(a) = TimeZone::tzif(name, &bytes) else { continue };
+                cx.eval(1);
+                match guard(|| db.get(name)) {
+                    Ok(Ok(b)) => {
+                        let same = b.iana_name() == Some(name.as_str()) && probes.iter().all(|t| a.to_offset_info(*t).offset() == b.to_offset_info(*t).offset() && a.to_offset_info(*t).abbreviation() == b.to_offset_info(*t).abbreviation());
+                        if !same {
+                            wrong += 1;
+                            if wrong <= 3 {
+                                cx.violation(&format!("{}/lookup-depends-on-earlier-lookups", label), || format!("cmp|{}|sys:{}", label, name), || format!("{} as in its file", name), || format!("{:?} with offset {:?} at the epoch (file: {:?})", b.iana_name(), b.to_offset(probes[0]), a.to_offset(probes[0])));
+                            }
+                        }
+                    }
+                    Ok(Err(e)) => cx.violation(&format!("{}/zone-not-found", label), || format!("cmp|{}|sys:{}", label, name), || format!("the zone {}", name), || e.to_string()),
+                    Err(pn) => cx.violation(&format!("{}/panic@{}", label, pn.loc()), || format!("cmp|{}|sys:{}", label, name), || "Ok".into(), || pn.what.clone()),
+                }
+            }
+            cx.count("whole_database_ordered_sweeps", 1);
+        }
+    }
     let _ = std::fs::remove_dir_all(&full_dir);
     for z in zs.iter().filter(|z| z.id.starts_with("sys:")) {
         cx.nontrivial(hash64(z.id.as_bytes()));
